@@ -33,12 +33,13 @@ static jsmntok_t *verif_tok_at(jsmntok_t *t, size_t i) {
 }
 /* structural ghost invariant at the top of the walk loop: the containers on tokenStack are exactly the
  * containers whose extent encloses the token about to be consumed */
-static jsmntok_t *verif_tok_value(jsmntok_t *t, size_t k, int tokenDepth) {
+static jsmntok_t *verif_tok_value(jsmntok_t *t, size_t k, int tokenDepth, int dataDepth) {
   jsmntok_t *tk = verif_tok_at(t, k);
   int depth = 0;
   for (size_t j = 0; j < k && j < VERIF_TOKMAX; j++)
     if ((t[j].type == JSMN_OBJECT || t[j].type == JSMN_ARRAY) && t[j].start <= tk->start && tk->start < t[j].end) depth++;
   __CPROVER_assert(tokenDepth == depth, "O_walk_nesting: the open containers on the stack are exactly those whose extent encloses the next token (else values are attached to the wrong parent)");
+  __CPROVER_assert(dataDepth == tokenDepth + 1, "O_walk_nesting: exactly one data element - the one for the value about to be consumed - lies above those of the open containers (else values are attached to the wrong parent)");
   return tk;
 }
 #define VERIF_MALLOC_TOKENS(n) verif_malloc_tokens((size_t)(n))
@@ -46,7 +47,7 @@ static jsmntok_t *verif_tok_value(jsmntok_t *t, size_t k, int tokenDepth) {
 #define VERIF_FREE(t) ((void)0)
 #define VERIF_THROW() do { verif_thrown = 1; return; } while (0)
 #define T_AT(i) (*verif_tok_at(t, (size_t)(i)))
-#define T_VALUE(i) (*verif_tok_value(t, (size_t)(i), tokenDepth))
+#define T_VALUE(i) (*verif_tok_value(t, (size_t)(i), tokenDepth, dataDepth))
 #define DATA_PUSH() do { __CPROVER_assert(dataDepth < VERIF_STACK, "BOUND data stack"); dataDepth++; } while (0)
 #define DATA_POP() do { __CPROVER_assert(dataDepth > 0, "O_walk_stack: dataStack.pop_back() on an empty list (undefined behaviour)"); dataDepth--; } while (0)
 #define DATA_BACK() __CPROVER_assert(dataDepth > 0, "O_walk_stack: dataStack.back() on an empty list (undefined behaviour)")
